@@ -17,6 +17,8 @@ A scenario is a plain dict:
   api     "recv_keep" | "recv_keep_with_info" | "recv_rsp" | "recv_rsp_with_info" | "recv_measure"
   mode    "plain" | "post" (post routine, not sequential) | "seq" (post routine, sequential)
   n       number of pairs;  live  number of other live qubits;  expect  expect_phi_plus
+  freed   indices (into the live qubits, creation order) measured again BEFORE the EPR request, so
+          that the virtual-id space has holes and the new pairs get non-consecutive ids
   bells   tuple of BellState values reported by the link (execute only)
 """
 import itertools
@@ -136,6 +138,9 @@ def emit(sc):
                                 **_hardware(sc["hw"]))
     b = conn.builder
     live = [Qubit(conn) for _ in range(sc["live"])]
+    for k in sc.get("freed", ()):
+        live[k].measure()
+    live = [q for k, q in enumerate(live) if k not in sc.get("freed", ())]
     for _ in range(sc.get("regs", 0)):
         b.new_register()
     mm = b._mem_mgr
@@ -309,6 +314,11 @@ def execute(sc):
         for k, q in enumerate(live):
             prepare_live(q, k)
         conn.flush()
+        if sc.get("freed"):
+            for k in sc["freed"]:
+                live[k].measure()
+            conn.flush()
+            live = [q for k, q in enumerate(live) if k not in sc["freed"]]
         live_ids = [q.qubit_id for q in live]
         unit = ex._qubit_unit_modules[conn.app_id]
         live_phys0 = [unit[v] for v in live_ids]
